@@ -357,6 +357,13 @@ def handle (toks : List String) : Option String :=
       let toC (s : String) : Option Colour := (parseList s).map fun l => l.map Int.ofNat
       let back ← toC back; let paint ← toC paint; let fg ← toC fg; let pix ← toC pix
       pure ("ok " ++ fmtList ((applyMaskPixel back paint fg pix).map Int.toNat) ++ " " ++ fmtList ((paintColour back).map Int.toNat))
+  | ["units", n, d] => do let n ← parseNat n; let d ← parseNat d; pure ("ok " ++ units n d)
+  | ["asciiout", tty, inv, isatty] => do
+      let tty ← parseBool tty; let inv ← parseBool inv; let isatty ← parseBool isatty
+      pure (match printAsciiOut [[true]] 1 0 tty inv isatty with | .ok t => "ok " ++ fmtCodePoints t | .error e => "err " ++ e.name)
+  | ["ttyout", isatty] => do
+      let isatty ← parseBool isatty
+      pure (match printTtyOut [[true]] 1 isatty with | .ok t => "ok " ++ fmtCodePoints t | .error e => "err " ++ e.name)
   | ["spec.penalty", m] => do let m ← parseBMat m; pure ("ok " ++ toString (Spec.penalty m))
   | ["spec.n1", m] => do let m ← parseBMat m; pure ("ok " ++ toString (Spec.N1 m m.length))
   | ["spec.n2", m] => do let m ← parseBMat m; pure ("ok " ++ toString (Spec.N2 m))
